@@ -102,9 +102,10 @@ def r4_cast_table(ctx, T, rule="C06.R4"):
 
 
 VALUE_KINDS_OK = ("EXPR:generate_expression_instructions_casting",)
+ARITH_INSTR = ("Plus", "Minus", "Multiply", "Divide", "Modulo", "NegateA", "NotA", "And", "Or")
 
 
-def r2_store_routes(ctx, rule="C06.R2"):
+def r2_store_routes(ctx, rule="C06.R2", strings_only=False):
     """Each store emission (call to a store emitter / push(CopyAToVarPath)) is preceded by a
     converting producer."""
     prog = ctx.prog
@@ -154,6 +155,9 @@ def r2_store_routes(ctx, rule="C06.R2"):
             key = "%s:%s:store(%s)" % (rule, f.name, what)
             loc = "%s:%s" % (f.file, e.line)
             bad = [p for p in producers if not _producer_converts(p)]
+            if strings_only:
+                # arithmetic results are numeric; the checker rejects string FOR counters
+                bad = [p for p in bad if not (p.kind == "push" and p.instr in ARITH_INSTR)]
             if not producers:
                 ctx.unknown(rule, key, loc, "no value producer found before the store")
             elif bad:
@@ -164,6 +168,10 @@ def r2_store_routes(ctx, rule="C06.R2"):
                               {"function": f.path})
             else:
                 ctx.ok(rule, key, loc, "produced by %s" % ", ".join(sorted({p.show() for p in producers})))
+    if strings_only:
+        ctx.analysed_units(rule, store_emitters=sorted(prog.fns[s].name for s in store_fns), sites=n)
+        ctx.require(rule, 7)
+        return
     # loop limits: the value copied to the limit register (C) is converted to the counter's type
     for f in sorted(gens, key=lambda x: x.id):
         evs = evs_of[f.id]
